@@ -13,7 +13,7 @@ import (
 
 func init() {
 	register("C14",
-		"the operator lexeme table and longest-match behaviour of the scanner's first-character switch (extracted by folding Scan over every 1-3 character operator text), advance = lexeme length, Scan returns the token it stored, keyword table completeness and whole-word lookup, literal white-space / line-break cases agree with the class predicates, range tables well-formed for binary search, the preceding-line-break flag is reset per token, set on every line-break path and read by HasPrecedingLineBreak.",
+		"the operator lexeme table and longest-match behaviour of the scanner's first-character switch (extracted by folding Scan over every 1-3 character operator text), advance = lexeme length, Scan returns the token it stored, keyword table completeness and whole-word lookup, literal white-space / line-break cases agree with the class predicates, range tables well-formed for binary search, the preceding-line-break flag is reset per token, set on every line-break path and read by HasPrecedingLineBreak. The look-ahead helpers have their specified meaning (cursor/counter/hit/test shape of their loop; an early bail-out only when provably fewer than n+1 bytes remain, by linear arithmetic over position, end and n); between tokens exactly the one decoded and classified rune is skipped per trip.",
 		"membership of the ES5 identifier tables and of the white-space set against the ECMAScript standard (not available offline), and tiling / spacing-insensitivity as value statements beyond progress and lexeme length.",
 		runC14)
 }
